@@ -199,6 +199,10 @@ func render(v ssa.Value, d int, onstack map[ssa.Value]bool) string {
 		}
 		return x.Op.String() + r(x.X)
 	case *ssa.BinOp:
+		// the induction variable of a range-over-slice loop
+		if ph, ok := x.X.(*ssa.Phi); ok && ph.Comment == "rangeindex" && x.Op == token.ADD {
+			return "rangeidx"
+		}
 		return "(" + r(x.X) + " " + x.Op.String() + " " + r(x.Y) + ")"
 	case *ssa.Call:
 		return callString(&x.Call, r)
